@@ -205,6 +205,8 @@ func biGeo() []ugo.Object {
 		g = append(g, ugo.Int(i))
 	}
 	g = append(g, ugo.Bytes("éa"), ugo.Char('é'), ugo.Uint(3))
+	// containers with spare capacity (what append and slicing leave behind)
+	g = append(g, append(make(ugo.Array, 0, 8), ugo.Int(1), ugo.Int(2)), append(make(ugo.Bytes, 0, 8), 'a', 'b'))
 	return g
 }
 
@@ -447,7 +449,33 @@ func (e *biEnv) call(c *biCallable, args []ugo.Object, rt biRoute) (out biOutcom
 	if ret == nil {
 		return biOutcome{class: "nil-result"}
 	}
+	// a Go nil INSIDE the returned value (an element of an array, a value of a map) is a nil result as
+	// well: the next builtin that touches it dereferences nil
+	if hasNilInside(ret, 0) {
+		return biOutcome{class: "nil-result", msg: "a Go nil inside the returned " + ret.TypeName()}
+	}
 	return biOutcome{class: "ok"}
+}
+
+func hasNilInside(o ugo.Object, depth int) bool {
+	if depth > 6 {
+		return false
+	}
+	switch v := o.(type) {
+	case ugo.Array:
+		for _, e := range v {
+			if e == nil || hasNilInside(e, depth+1) {
+				return true
+			}
+		}
+	case ugo.Map:
+		for _, e := range v {
+			if e == nil || hasNilInside(e, depth+1) {
+				return true
+			}
+		}
+	}
+	return false
 }
 
 // ---------------------------------------------------------------- what the property allows us to skip
